@@ -94,10 +94,11 @@ PROPS = {
         "lean_modules": ["Cachelito.Props.C19"],
         "streams": [lines_stream("attrs_diff", "attrs", ["gen", "{seed}", "{n}", "{n}"], 1500, 20000,
                                  "attrs: generated attribute lists (mostly valid: every attribute present/absent, six policies, limits, ttls, max_memory in all forms and letter cases, weights, names, arrays, paths; plus a malformed stream: unknown names, typos, wrong literal kinds, out-of-set policy/scope, negative/overflowing numbers, repeated attributes with an invalid occurrence) through the REAL parse_sync_attributes / parse_async_attributes (catch_unwind) vs Attrs.parse; is_result and has_max_memory expressions copied verbatim", r"^[AR]\|"),
+                    {"kind": "compile", "nontrivial": [], "what": "compile corpus through rustc: 22 invalid attribute lists (unknown names, typos, wrong literal kinds, out-of-set policy/scope, negative/float/overflowing numbers, repeated attribute with an invalid occurrence) must fail to compile with the REAL macros, 5 valid controls must compile (one cargo check --examples --keep-going)"},
                     macro_stream(nontrivial=["call"], what="L2 behavioural fidelity: 82 generated functions covering attribute values x signature shapes (0-4 args, &self / &mut self / self / none) x return types compile and behave like the core cache configured with the values as written (full cache dumps compared per call)")],
         "monitors": ["C19"],
         "rule": "attrs: one attribute list per line, distinct lines counted; L2: every call on a generated function",
-        "level_text": "Lean theorems about the transcribed attribute parser: every Valid list is accepted with exactly its meaning (last occurrence wins, defaults otherwise, n KB/MB/GB = n*1024^k in any letter case), every list containing an unknown name or an invalid policy/scope/limit/ttl/max_memory/frequency_weight value ANYWHERE is rejected (parser error, spliced compile_error or panic - all compile failures), overflowing sizes are rejected, the textual has_max_memory test equals maxMemory.isSome, isResultSpelling accepts exactly the two spellings. Tied to the code by running the real parser on generated token streams and by the compiled corpus of generated functions whose behaviour is compared with the model per call. That rustc accepts the generated code for EVERY valid program is sampled by the corpus, not proved.",
+        "level_text": "Lean theorems about the transcribed attribute parser: every Valid list is accepted with exactly its meaning (last occurrence wins, defaults otherwise, n KB/MB/GB = n*1024^k in any letter case), every list containing an unknown name or an invalid policy/scope/limit/ttl/max_memory/frequency_weight value ANYWHERE is rejected (parser error, spliced compile_error or panic - all compile failures), overflowing sizes are rejected, the textual has_max_memory test equals maxMemory.isSome, isResultSpelling accepts exactly the two spellings. Tied to the code by running the real parser on generated token streams and by the compiled corpus of generated functions whose behaviour is compared with the model per call. Rejection 'at compile time' is checked end to end by compiling invalid lists with the real macros. That rustc accepts the generated code for EVERY valid program is sampled by the corpora, not proved.",
         "level_note": MODEL_NOTE + " syn's tokenisation is trusted (the harness encodes what syn parsed). Quirks reproduced by the model and not alarmed: name = <non-string> ignored, \"1GBGB\" = 1 GB, leading + accepted, integer frequency_weight 0 accepted.",
         "technique": "Lean 4 theorem (parser = independent specification on valid lists; rejection lemmas) + real parser vs model on generated attribute lists + compiled corpus behaviour vs model",
         "design_ref": "DESIGN.md §7 C19", "assumptions": [],
